@@ -1,4 +1,5 @@
 """Specification side of the standard datatypes (property C09)."""
+from pyvc.specapi import recursive
 
 
 def int_ok(s):
@@ -64,3 +65,36 @@ def inet_spec(s, default_host):
     if host == '':
         host = default_host
     return (0, host, False, 0)
+
+
+# ---- timedelta (C09): "<number><unit>" words, unit one of w d h m s; the LAST word of a unit wins ----
+def td_unit_ok(part):
+    u = part[-1:]
+    return u == 'w' or u == 'd' or u == 'h' or u == 'm' or u == 's'
+
+
+@recursive(['Seq[str]', 'int'], 'int')
+def td_scan(parts, i):
+    """Outcome of reading the words from index i on, in order: 0 = every word is a float followed by
+    a known unit letter; 1 = the first offending word has a malformed number (ValueError);
+    2 = the first offending word has an unknown unit letter (TypeError).  The number is looked at
+    before the unit, as the statement's 'timedelta alone reports an unknown unit letter as
+    TypeError' presupposes a well-formed number."""
+    if i >= len(parts):
+        return 0
+    if not float_ok(parts[i][:-1]):
+        return 1
+    if not td_unit_ok(parts[i]):
+        return 2
+    return td_scan(parts, i + 1)
+
+
+@recursive(['Seq[str]', 'int', 'str', 'Num'], 'Num')
+def td_last(parts, i, unit, cur):
+    """The amount given for `unit`: that of the last word with this unit letter from index i on,
+    else cur (0 when the text gives none)."""
+    if i >= len(parts):
+        return cur
+    if parts[i][-1:] == unit:
+        return td_last(parts, i + 1, unit, float_of(parts[i][:-1]))
+    return td_last(parts, i + 1, unit, cur)
